@@ -718,7 +718,17 @@ pub fn check_inst(f: &GraphFacts, ex: &Exec, inst: &Inst, rep: &mut Report) -> B
                         } else {
                             let got = elems_i64(actual).unwrap();
                             let want: Vec<i64> = c.values().iter().map(|v| *v as i64).collect();
-                            if got.iter().zip(&want).any(|(g, w)| *g != Some(*w)) {
+                            let neg_zero = match actual {
+                                TVal::F32 { data, .. } => data.iter().zip(&want).any(|(a, w)| *w == 0 && *a == 0.0 && a.is_sign_negative()),
+                                _ => false,
+                            };
+                            if neg_zero {
+                                // numerically equal, but the substituted +0.0 changes e.g. 1/x
+                                local.push(Violation {
+                                    sig: "constant:f32:negative-zero".to_string(),
+                                    detail: ctx(format!("inferred constant {c:?} (the optimiser substitutes +0.0) but execution produced {actual:?} (-0.0)")),
+                                });
+                            } else if got.iter().zip(&want).any(|(g, w)| *g != Some(*w)) {
                                 local.push(Violation {
                                     sig: value_sig("constant", dt).unwrap_or(format!("constant:{op_name}:{dt}")),
                                     detail: ctx(format!("inferred constant {c:?} (the optimiser substitutes it) but execution produced {actual:?}")),
@@ -758,7 +768,14 @@ pub fn check_inst(f: &GraphFacts, ex: &Exec, inst: &Inst, rep: &mut Report) -> B
                                         Some(prev) if *prev != *a as i64 => {
                                             let kind = if inst.assign.contains_key(name) { "dim-symbol" } else { "dim-synthetic-symbol" };
                                             local.push(Violation {
-                                                sig: shape_sig(kind),
+                                                sig: {
+                                                    let ss = shape_sig(kind);
+                                                    if !ss.starts_with("shape:") && *prev < 0 && *a == 0 {
+                                                        format!("dim-negative:{op_name}")
+                                                    } else {
+                                                        ss
+                                                    }
+                                                },
                                                 detail: ctx(format!("inferred shape {dims:?}: dim {k} is symbol {name} which has size {prev} elsewhere, but execution produced shape {ashape:?}")),
                                             });
                                         }
